@@ -30,7 +30,7 @@ Proof.
   destruct (w_epoch w =? 0); [now rewrite H|].
   destruct (negb (r_init s)); [reflexivity|].
   destruct (negb (len (r_cid s) =? 0) && negb (w_ctype w =? ct_cid)); [reflexivity|].
-  destruct (w_ctype w =? ct_ccs); [now rewrite is_hs_ccs_view|].
+  destruct (w_ctype w =? ct_ccs); [reflexivity|].
   destruct (w_auth w) as [c|]; [|reflexivity]. now rewrite H.
 Qed.
 
@@ -118,34 +118,48 @@ Proof.
   now rewrite andb_false_r.
 Qed.
 
-(* a record typed change_cipher_spec whose body is not the single byte 01 never produces any output, whatever
-   epoch it claims and in every state (no suite authenticates change_cipher_spec records, so the code
-   treats an undecodable one like an unprotected one: discarded) *)
-Theorem ccs_undecodable_no_output W lease full s w :
-  w_ctype w = ct_ccs -> w_clear w = CBad -> snd (recv_fb W lease full s w) = [].
+(* a record typed change_cipher_spec that claims a protected epoch (no suite authenticates such records) never
+   produces any output, whatever its body - the valid body 01 included - and in every state ... *)
+Theorem ccs_claiming_epoch_no_output W lease full s w :
+  w_ctype w = ct_ccs -> w_epoch w <> 0 -> snd (recv_fb W lease full s w) = [].
 Proof.
-  intros Hct Hb. unfold recv_fb, gated, dispatch. rewrite Hct, Hb. cbn [ccs_view is_hs].
-  rewrite andb_false_r, N.eqb_refl, orb_true_r.
+  intros Hct He. unfold recv_fb. rewrite Hct.
   destruct (r_closed s); [reflexivity|].
   destruct (r_epoch s <? w_epoch w); [destruct (r_epoch s + 1 <? w_epoch w); reflexivity|].
   destruct (negb (check maxseq48 (get_win W (w_epoch w) (r_wins s)) (w_seq w))); [reflexivity|].
-  destruct (w_epoch w =? 0); [reflexivity|].
+  destruct (w_epoch w =? 0) eqn:E0; [lia|].
   destruct (negb (r_init s)); [reflexivity|].
-  destruct (negb (len (r_cid s) =? 0) && negb (ct_ccs =? ct_cid)); reflexivity.
+  destruct (negb (len (r_cid s) =? 0) && negb (ct_ccs =? ct_cid)); [reflexivity|].
+  rewrite N.eqb_refl. reflexivity.
 Qed.
 
-(* the established case exactly: claiming the current protected epoch, it leaves the state untouched - the
-   finding "change_cipher_spec-typed record claiming a protected epoch" is repaired (82cb644) *)
-Theorem ccs_claiming_epoch_dropped W lease full s w :
-  r_closed s = false -> r_init s = true -> w_epoch w <> 0 -> w_epoch w <= r_epoch s -> w_ctype w = ct_ccs ->
-  w_clear w = CBad -> len (r_cid s) = 0 ->
+(* ... and claiming the current or a past epoch of a keyed connection it leaves the state untouched: the remote
+   epoch does not advance and no record number is committed to the replay window (ae10e63; before, ONE record
+   14fefd0001 ffffffffffff 0001 01 advanced the remote epoch and committed 2^48-1: every later genuine record
+   was dropped for good) *)
+Theorem ccs_claiming_epoch_inert W lease full s w :
+  r_init s = true -> w_epoch w <> 0 -> w_epoch w <= r_epoch s -> w_ctype w = ct_ccs ->
   recv_fb W lease full s w = (s, []).
 Proof.
-  intros Hc Hi He Hle Hct Hb Hcid. unfold recv_fb, gated, dispatch. rewrite Hc, Hi, Hb, Hcid, Hct.
+  intros Hi He Hle Hct. unfold recv_fb. rewrite Hi, Hct.
+  destruct (r_closed s); [reflexivity|].
   destruct (r_epoch s <? w_epoch w) eqn:E1; [lia|].
   destruct (negb (check maxseq48 (get_win W (w_epoch w) (r_wins s)) (w_seq w))); [reflexivity|].
-  destruct (w_epoch w =? 0) eqn:E0; [lia|].
-  cbn. rewrite andb_false_r. reflexivity.
+  destruct (w_epoch w =? 0) eqn:E0; [lia|]. cbn [negb].
+  destruct (negb (len (r_cid s) =? 0) && negb (ct_ccs =? ct_cid)); [reflexivity|].
+  rewrite N.eqb_refl. reflexivity.
+Qed.
+
+(* an UNPROTECTED application_data record is refused silently in every state: no delivery, no alert, no error,
+   no replay commit (8aa2dc9; before, a fatal unexpected_message alert + error) *)
+Theorem unprotected_appdata_inert W lease full s w p :
+  w_epoch w = 0 -> w_clear w = CApp p -> recv_fb W lease full s w = (s, []).
+Proof.
+  intros He Hb. unfold recv_fb, gated, dispatch. rewrite He, Hb. cbn [N.eqb is_hs].
+  destruct (r_closed s); [reflexivity|].
+  destruct (r_epoch s <? 0) eqn:E; [lia|].
+  destruct (negb (check maxseq48 (get_win W 0 (r_wins s)) (w_seq w))); [reflexivity|].
+  now rewrite andb_false_r.
 Qed.
 
 (* what still surfaces, as coded: a record that AUTHENTICATES under the session keys and whose content does
@@ -201,6 +215,11 @@ Theorem unprotected_alert_inert_established_conn W lease full s w :
   unprotected_alert w = true -> recv_conn W lease full true s w = (s, []).
 Proof. intro H. unfold recv_conn. now rewrite H. Qed.
 
+(* ... and so is an unprotected change_cipher_spec (ae10e63): it only ends the peer's epoch 0 while the handshake runs *)
+Theorem unprotected_ccs_inert_established_conn W lease full s w :
+  unprotected_ccs w = true -> recv_conn W lease full true s w = (s, []).
+Proof. intro H. unfold recv_conn. rewrite H. now rewrite orb_true_r. Qed.
+
 (* what X1 still is: WHILE THE HANDSHAKE IS RUNNING an unprotected fatal alert (or close_notify) with a fresh
    number closes the endpoint - DTLS 1.2 alerts are unauthenticated until the epoch changes *)
 Theorem unprotected_fatal_alert_before_establishment W lease s w desc :
@@ -227,13 +246,13 @@ Proof. unfold recv_conn_neg. apply warning_alert_inert_before_establishment. Qed
 
 (* ---------- forged records ---------- *)
 
-Lemma forgedb_spec w : forgedb w = true <-> w_epoch w <> 0 /\ w_ctype w <> ct_ccs /\ w_auth w = None.
+Lemma forgedb_spec w : forgedb w = true <-> w_epoch w <> 0 /\ w_auth w = None.
 Proof.
   unfold forgedb. destruct (w_auth w); split.
   - intro H. rewrite andb_false_r in H. discriminate.
-  - intros (_ & _ & H). discriminate.
-  - intro H. repeat split; lia.
-  - intros (H1 & H2 & _). lia.
+  - intros (_ & H). discriminate.
+  - intro H. split; [lia|reflexivity].
+  - intros (H1 & _). lia.
 Qed.
 
 Theorem forged_dropped W lease s w : forgedb w = true ->
@@ -242,19 +261,19 @@ Theorem forged_dropped W lease s w : forgedb w = true ->
   (r_queue (fst (recv W lease s w)) = r_queue s \/
    (r_queue (fst (recv W lease s w)) = r_queue s ++ [w] /\ (length (r_queue s) < max_queue)%nat /\
     lease = true /\ (w_epoch w = r_epoch s + 1 \/ r_init s = false))).
-Proof. intro H. apply forgedb_spec in H. destruct H as (H1 & H2 & H3). now apply forged_inert. Qed.
+Proof. intro H. apply forgedb_spec in H. destruct H as (H1 & H3). now apply forged_inert_any_type. Qed.
 
 (* a forged record never reaches the gate: the buffer state is irrelevant *)
 Lemma forged_fb W lease full s w : forgedb w = true -> recv_fb W lease full s w = recv W lease s w.
 Proof.
-  intro H. apply forgedb_spec in H. destruct H as (H1 & H2 & H3). unfold recv_fb, recv, gated.
+  intro H. apply forgedb_spec in H. destruct H as (H1 & H3). unfold recv_fb, recv, gated.
   destruct (r_closed s); [reflexivity|].
   destruct (r_epoch s <? w_epoch w); [reflexivity|].
   destruct (negb (check maxseq48 (get_win W (w_epoch w) (r_wins s)) (w_seq w))); [reflexivity|].
   destruct (w_epoch w =? 0) eqn:E; [lia|].
   destruct (negb (r_init s)); [reflexivity|].
   destruct (negb (len (r_cid s) =? 0) && negb (w_ctype w =? ct_cid)); [reflexivity|].
-  destruct (w_ctype w =? ct_ccs) eqn:E2; [lia|]. now rewrite H3.
+  destruct (w_ctype w =? ct_ccs) eqn:E2; [reflexivity|]. now rewrite H3.
 Qed.
 
 (* ---------- garbage does not change what genuine traffic does ---------- *)
